@@ -105,9 +105,11 @@ def run_one(tape, opts):
     fallback, fb_ss, ops = gen(tape, big=opts.get("tier") == "thorough")
     world = World()
     falsy_sinks = tape.chance("config", 1, 6, "falsy-sinks")
+    equal_sinks = tape.chance("config", 1, 6, "equal-sinks")
     fb = TStream(world, "fallback") if fallback else None
     if fb is not None:
         fb._falsy = falsy_sinks
+        fb._equal_all = equal_sinks
     router = StreamResultRouter(fb, do_start_stop_run=fb_ss)
     sinks = {}
     # model state
@@ -121,6 +123,7 @@ def run_one(tape, opts):
     def sink(name):
         s = TStream(world, name)
         s._falsy = falsy_sinks      # a sink may be falsy (an empty sized collector): it is a sink all the same
+        s._equal_all = equal_sinks  # ... or compare equal to another one (value equality): two sinks all the same
         sinks[name] = s
         expect[name] = []
         return s
